@@ -60,6 +60,8 @@ def actions_of(x, full=True):
     # the name of the other client's oldest temporary account (made by an add without a session), if there is one:
     # such accounts have no password and nobody can log into them
     acts.append((x, "login", TEMP0, PW[x][0]))
+    # ... and an attempt to register that very name (account names are unique: it is taken, whatever the account holds)
+    acts.append((x, "register", TEMP0, PW[x][0]))
     acts += [(x, "logout"), (x, "info")]
     for n in (OWN[x], SHARED):
         for p in PW[x]:
@@ -222,11 +224,11 @@ class World:
         x, kind = act[0], act[1]
         y = other(x)
         m = self.m
-        if kind == "login" and act[2] == TEMP0:
+        if kind in ("login", "register") and act[2] == TEMP0:
             live = [t for t in m["temps"] if t in m["accounts"] and m["temp_creator"].get(t) == y]
             if not live:
                 return None
-            act = (x, "login", live[0], act[3])
+            act = (x, kind, live[0], act[3])
         before_foreign = self.foreign_docs(x)
         users_before = {d.get("username") for d in self.stub.db.docs(*USERS)}
         handover = None
@@ -357,7 +359,7 @@ class World:
 def touches_foreign_name(world, act):
     """does the action target a name currently held by an account of the other client (or contested before)?"""
     x, kind = act[0], act[1]
-    if kind == "login" and act[2] == TEMP0:
+    if kind in ("login", "register") and act[2] == TEMP0:
         return True
     if kind in ("register", "login", "update"):
         acc = world.m["accounts"].get(act[2])
